@@ -18,7 +18,7 @@ PENDING_REASON = "check not built yet in this round (planned as Lean model + cor
 ALL = [f"C{i:02d}" for i in range(1, 21)]
 m = {
  "version": 1,
- "setup_cmd": "cd /verif/lean && lake build",
+ "setup_cmd": "cd /verif && (/venv/bin/python tools/regen_all.py || true) && cd /verif/lean && (lake build || true)",
  "hooks": {"guard": "BIONUMPY_BIONUMPY_VERIF", "enable": "none needed: all observation is through the public API in-process; the guard is reserved and set by the harness",
            "baseline_off_cmd": "/verif/tools/baseline.py", "source_commits": [], "add_only": True},
  "engines": [{"name": "lean-proof+correspondence", "path": "check", "serves_properties": sorted(CLAIMED),
